@@ -254,6 +254,103 @@ theorem window2_same_or_rejected (s' : List UInt8) (body field pre mid mid' post
           rw [← UInt8.xor_assoc, UInt8.xor_self, UInt8.zero_xor, ← UInt8.xor_assoc, UInt8.xor_self, UInt8.zero_xor]
           simp
 
+/-- **A changed window of at most three octets anywhere in an accepted binary**: the changed
+binary is refused — inside `time ‖ imprint`, inside the CRC field, or across the boundary
+(one body octet with up to two field octets, or two body octets with one field octet). -/
+theorem window3_same_or_rejected (s' : List UInt8) (body field pre mid mid' post : Bytes)
+    (hf : field.length = 4) (hcrc : crc32 body = beNat field)
+    (hbin : body ++ field = pre ++ mid ++ post) (hm : mid.length = mid'.length) (hm2 : mid.length ≤ 3)
+    (hdec : b32decode s' = .ok (pre ++ mid' ++ post)) :
+    mid' = mid ∨ ∃ err, fromPubString s' = .error err := by
+  have hfield : field = beBytes 4 (crc32 body) := by rw [hcrc, beBytes4_beNat field hf]
+  by_cases heq : mid' = mid
+  · exact .inl heq
+  right
+  have hel : (xorBytes mid mid').length = mid.length := xorBytes_length mid mid' hm
+  have hmid' : mid' = xorBytes mid (xorBytes mid mid') := (xorBytes_xorBytes mid mid' hm).symm
+  have hne : ∃ x ∈ xorBytes mid mid', x ≠ 0 := by
+    apply Classical.byContradiction
+    intro hcon
+    apply heq
+    exact (xorBytes_zero_eq mid mid' hm (by
+      intro x hx; apply Classical.byContradiction; intro hx0; exact hcon ⟨x, hx, hx0⟩)).symm
+  have hlen := congrArg List.length hbin
+  simp only [List.length_append, hf] at hlen
+  by_cases hA : 4 ≤ post.length
+  · -- the window lies inside the body
+    have hp : post = post.take (post.length - 4) ++ post.drop (post.length - 4) := (List.take_append_drop _ _).symm
+    have hfl : (post.drop (post.length - 4)).length = 4 := by rw [List.length_drop]; omega
+    rw [hp, ← List.append_assoc] at hbin
+    obtain ⟨hb, hfd⟩ := List.append_inj' hbin (by rw [hf, hfl])
+    apply corrupted_body_rejected s' pre mid (post.take (post.length - 4)) (xorBytes mid mid') hel (by omega) hne
+    rw [hdec, ← hmid', ← hb, ← hfield, hfd]
+    congr 1
+    simp [List.take_append_drop, List.append_assoc]
+  · by_cases hB : mid.length + post.length ≤ 4
+    · -- the window lies inside the CRC field
+      have hp : pre = pre.take body.length ++ pre.drop body.length := (List.take_append_drop _ _).symm
+      have htl : (pre.take body.length).length = body.length := by rw [List.length_take]; omega
+      rw [hp, List.append_assoc, List.append_assoc] at hbin
+      obtain ⟨hb, hfd⟩ := List.append_inj hbin htl.symm
+      apply corrupted_crc_field_rejected s' body (pre.drop body.length ++ (mid' ++ post))
+      · have := congrArg List.length hfd
+        simp only [List.length_append, hf] at this ⊢
+        omega
+      · rw [← hfield, hfd]
+        intro h
+        exact heq (List.append_cancel_right (List.append_cancel_left h))
+      · have hpre : body ++ pre.drop body.length = pre := by
+          have := List.take_append_drop body.length pre
+          rwa [← hb] at this
+        rw [hdec]; congr 1
+        simp only [← List.append_assoc]
+        rw [hpre]
+    · -- across the boundary
+      have hcases : (mid.length = 2 ∧ post.length = 3) ∨ (mid.length = 3 ∧ post.length = 2) ∨
+          (mid.length = 3 ∧ post.length = 3) := by omega
+      rcases hcases with ⟨hm2', hp3⟩ | ⟨hm2', hp3⟩ | ⟨hm2', hp3⟩
+      · -- one octet of the body, one of the field
+        match mid, mid', post, hm2', hm, hp3 with
+        | [m1, f1], [m1', f1'], [f2, f3, f4], _, _, _ =>
+          have hbin' : body ++ field = (pre ++ [m1]) ++ [f1, f2, f3, f4] := by rw [hbin]; simp
+          obtain ⟨hb, hfd⟩ := List.append_inj' hbin' (by rw [hf]; rfl)
+          apply corrupted_straddle_1_2_rejected s' pre m1 (m1 ^^^ m1') (f1 ^^^ f1') 0
+          · intro ⟨h1, h2, _⟩
+            apply heq
+            rw [UInt8.xor_eq_zero_iff.mp h1, UInt8.xor_eq_zero_iff.mp h2]
+          · rw [hdec, ← hb, ← hfield, hfd]
+            simp only [xorBytes]
+            rw [← UInt8.xor_assoc, UInt8.xor_self, UInt8.zero_xor, ← UInt8.xor_assoc, UInt8.xor_self, UInt8.zero_xor]
+            simp
+      · -- one octet of the body, two of the field
+        match mid, mid', post, hm2', hm, hp3 with
+        | [m1, f1, f2], [m1', f1', f2'], [f3, f4], _, _, _ =>
+          have hbin' : body ++ field = (pre ++ [m1]) ++ [f1, f2, f3, f4] := by rw [hbin]; simp
+          obtain ⟨hb, hfd⟩ := List.append_inj' hbin' (by rw [hf]; rfl)
+          apply corrupted_straddle_1_2_rejected s' pre m1 (m1 ^^^ m1') (f1 ^^^ f1') (f2 ^^^ f2')
+          · intro ⟨h1, h2, h3⟩
+            apply heq
+            rw [UInt8.xor_eq_zero_iff.mp h1, UInt8.xor_eq_zero_iff.mp h2, UInt8.xor_eq_zero_iff.mp h3]
+          · rw [hdec, ← hb, ← hfield, hfd]
+            simp only [xorBytes]
+            rw [← UInt8.xor_assoc, UInt8.xor_self, UInt8.zero_xor, ← UInt8.xor_assoc, UInt8.xor_self, UInt8.zero_xor,
+              ← UInt8.xor_assoc, UInt8.xor_self, UInt8.zero_xor]
+            simp
+      · -- two octets of the body, one of the field
+        match mid, mid', post, hm2', hm, hp3 with
+        | [m1, m2, f1], [m1', m2', f1'], [f2, f3, f4], _, _, _ =>
+          have hbin' : body ++ field = (pre ++ [m1, m2]) ++ [f1, f2, f3, f4] := by rw [hbin]; simp
+          obtain ⟨hb, hfd⟩ := List.append_inj' hbin' (by rw [hf]; rfl)
+          apply corrupted_straddle_2_1_rejected s' pre m1 m2 (m1 ^^^ m1') (m2 ^^^ m2') (f1 ^^^ f1')
+          · intro ⟨h1, h2, h3⟩
+            apply heq
+            rw [UInt8.xor_eq_zero_iff.mp h1, UInt8.xor_eq_zero_iff.mp h2, UInt8.xor_eq_zero_iff.mp h3]
+          · rw [hdec, ← hb, ← hfield, hfd]
+            simp only [xorBytes]
+            rw [← UInt8.xor_assoc, UInt8.xor_self, UInt8.zero_xor, ← UInt8.xor_assoc, UInt8.xor_self, UInt8.zero_xor,
+              ← UInt8.xor_assoc, UInt8.xor_self, UInt8.zero_xor]
+            simp
+
 /-- **Every single-symbol substitution is rejected, unless it decodes to the identical data.**
 For every string the library accepts as a publication string, every position holding a
 character that contributes five bits, and every replacement character that contributes five
@@ -290,10 +387,46 @@ theorem single_symbol_substitution_rejected (v v' : Nat) (c c' : UInt8)
       rw [hdec', hdec, heq, hbin']
     · exact .inr hrej
 
+/-- **Every swap of two neighbouring symbols is rejected, unless it decodes to the identical data**
+(two equal symbols, padding bits only, or a position behind an `=`).  Neighbours in the symbol
+sequence: `m` holds the characters between them that contribute nothing (a dash, ignored
+digits; `m = []` for directly adjacent characters).  The ten bits of the two
+symbols lie in at most three consecutive octets, and a changed window of three octets anywhere
+in an accepted binary is refused (`window3_same_or_rejected`). -/
+theorem adjacent_transposition_rejected (v1 v2 : Nat) (c1 c2 : UInt8)
+    (h1 : classify c1 = .bits v1) (h2 : classify c2 = .bits v2) (m : List UInt8) (hskip : ∀ x ∈ m, classify x = .skip)
+    (p q : List UInt8) (time : Nat) (imprint : Bytes)
+    (hok : fromPubString (p ++ c1 :: (m ++ c2 :: q)) = .ok (time, imprint)) :
+    b32decode (p ++ c2 :: (m ++ c1 :: q)) = b32decode (p ++ c1 :: (m ++ c2 :: q)) ∨
+    ∃ err, fromPubString (p ++ c2 :: (m ++ c1 :: q)) = .error err := by
+  obtain ⟨bin, hdec, hlen, _, _, hcrc, _, _⟩ := accepted_is_wellformed _ time imprint hok
+  have hbits : ∃ bits, decodeBits (p ++ c1 :: (m ++ c2 :: q)) = .ok bits ∧ bin = bitsToBytes bits := by
+    unfold b32decode at hdec
+    cases hd : decodeBits (p ++ c1 :: (m ++ c2 :: q)) with
+    | error e => rw [hd] at hdec; cases hdec
+    | ok bits => rw [hd] at hdec; simp only [Except.ok.injEq] at hdec; exact ⟨bits, rfl, hdec.symm⟩
+  obtain ⟨bits, hdb, hbin⟩ := hbits
+  rcases decodeBits_swap v1 v2 c1 c2 h1 h2 m hskip p q bits hdb with hsame | ⟨A, B, hAB, hdb'⟩
+  · left
+    unfold b32decode
+    rw [hsame, hdb]
+  · obtain ⟨pre, mid, mid', post, e1, e2, hm, hm2⟩ :=
+      window_bytes10 A (fiveBits v1 ++ fiveBits v2) (fiveBits v2 ++ fiveBits v1) B rfl (by simp [fiveBits])
+    have hdec' : b32decode (p ++ c2 :: (m ++ c1 :: q)) = .ok (pre ++ mid' ++ post) := by
+      unfold b32decode; rw [hdb']; simp only; rw [e2]
+    have hbin' : bin = pre ++ mid ++ post := by rw [hbin, hAB, e1]
+    have hn : 4 ≤ bin.length := by omega
+    have hfl : (bin.drop (bin.length - 4)).length = 4 := by rw [List.length_drop]; omega
+    rcases window3_same_or_rejected (p ++ c2 :: (m ++ c1 :: q)) (bin.take (bin.length - 4)) (bin.drop (bin.length - 4))
+        pre mid mid' post hfl hcrc (by rw [List.take_append_drop, hbin']) hm hm2 hdec' with heq | hrej
+    · left
+      rw [hdec', hdec, heq, hbin']
+    · exact .inr hrej
+
 /-! Non-vacuity: a concrete SHA-256 publication meets the hypotheses of `pub_roundtrip`. -/
 example : Gen.hashValid 1 = true ∧ Gen.hashLen 1 = 32 ∧ 0 < Gen.hashLen 1 := by decide
 example : ∃ x ∈ ([0x10, 0x00] : Bytes), x ≠ 0 := ⟨0x10, by simp, by decide⟩
-example : classify 65 = .bits 0 ∧ classify 55 = .bits 31 := by decide
+example : classify 65 = .bits 0 ∧ classify 55 = .bits 31 ∧ classify 45 = .skip := by decide
 example : ¬ ((0x03 : UInt8) = 0 ∧ (0xC0 : UInt8) = 0 ∧ (0 : UInt8) = 0) := by decide
 
 /-- a real publication string (time 1400604800, SHA-256) is accepted, and its 37th character is a
